@@ -47,6 +47,10 @@ def coverage(prop, executed, rejected, tier):
         "faults_armed_fired": faults,
         "abort_landing_files": {k[6:]: int(v) for k, v in sorted(total.items()) if k.startswith("abort@")},
         "item_families": dict(families),
+        "fragment_levels_histogram": {k[7:]: int(v) for k, v in sorted(total.items()) if k.startswith("levels:")},
+        "items_with_composition_oracle": int(total.get("composition_items", 0)),
+        "heavy_atoms_in_composition_items": int(total.get("composition_atoms", 0)),
+        "constructor_driver_paths": {k[5:]: int(v) for k, v in sorted(total.items()) if k.startswith("path:")},
         "valence_graphs_monitored": int(total.get("valence_graphs", 0)),
         "valence_atoms_judged": int(total.get("valence_judged", 0)),
         "valence_atoms_unjudged": int(total.get("valence_unjudged", 0)),
